@@ -22,7 +22,8 @@ EXPLANATION = (
     "controls when they run; (R7) at every exposure call the excluded order and the prospective order are not "
     "the same object; (R8) exposure skips exactly PENDING/VIOLATION/EXPIRED orders, counts matched amounts of "
     "completed orders and unmatched amounts of live ones only, remembers nothing between calls, and every "
-    "starting-price order adds its whole liability to the outcome it loses on; (R9) the control-free placement path "
+    "starting-price order adds its whole liability to the outcome it loses on, and line bets are valued at 2.0 (all "
+    "others at their own price) on every path to the contribution; (R9) the control-free placement path "
     "(execute=False) is used only by the two replace handlers, and the replacing order takes its price and size from "
     "the place half of the replace report. Not decided: the exposure arithmetic and the "
     "second sentence of the property (loss bound over all later histories)."
@@ -588,6 +589,9 @@ def _control_reads(ctx):
 _TC = "flumine/controls/tradingcontrols.py"
 _T = "flumine/execution/transaction.py"
 MUTANTS = [
+    dict(id="c01-line-remainder-at-line-value", file="flumine/markets/blotter.py", func="Blotter.get_exposures",
+         old="                        order_type_price = 2.0\n", new="                        order_type_price = order.order_type.price\n",
+         expect=["R8"], why="the unmatched part of a line bet valued at its line value instead of 2.0"),
     dict(id="c01-sp-liability-overwritten", file="flumine/markets/blotter.py", func="Blotter.get_exposures",
          old="                    moc_lose_liability -= order.order_type.liability\n",
          new="                    moc_lose_liability = -order.order_type.liability\n", expect=["R8"],
